@@ -100,8 +100,16 @@ pub fn ioerr(ex: &mut Exec, inner: &Op, after: u32, errno: i32, tryio: bool) {
 		}
 	}
 	if ex.has_db() {
-		// reads keep returning committed data (everything accepted so far)
+		// reads keep returning committed data (everything accepted so far). The try_io counter of
+		// the instrumentation build also fails plain memory reads of mapped tables, which no real
+		// fault does: it is lifted for the reads and re-armed for the shutdown.
+		if tryio {
+			parity_db::set_number_of_allowed_io_operations(usize::MAX);
+		}
 		ex.sweep();
+		if tryio {
+			parity_db::set_number_of_allowed_io_operations(0);
+		}
 		// later commits are refused
 		if step_err.is_some() {
 			if let Ok(()) = ex.db().commit_changes(Vec::<(u8, parity_db::Operation<Vec<u8>, Vec<u8>>)>::new()) {
@@ -188,17 +196,18 @@ fn log_files(dir: &str) -> Vec<String> {
 	v.into_iter().map(|x| x.1).collect()
 }
 
-/// Which records does a mutation of byte range [at, at+len) of `file` damage? Returns the
-/// smallest damaged record id, using the harness's own bookkeeping of record boundaries.
-fn first_damaged(ex: &Exec, file: &str, at: u64, to_end: bool) -> Option<u64> {
-	let mut best: Option<u64> = None;
-	for r in ex.log_records.iter().filter(|r| r.file == file && r.live) {
-		let hit = if to_end { at < r.end } else { at >= r.start && at < r.end };
-		if hit {
-			best = Some(best.map_or(r.record_id, |b: u64| b.min(r.record_id)));
-		}
-	}
-	best
+/// Which records does a mutation at byte `at` of `file` (or from `at` to the end) damage? Uses
+/// the harness's own bookkeeping of record boundaries.
+fn damaged_by(ex: &Exec, file: &str, at: u64, to_end: bool) -> Vec<u64> {
+	// The first nine bytes of a file (type byte + id of its first record) decide where the whole
+	// file is ordered at replay: damage there affects every record in it.
+	let to_end = to_end || at < 9;
+	ex.log_records
+		.iter()
+		.filter(|r| r.file == file && r.live)
+		.filter(|r| if to_end { at < r.end } else { at >= r.start && at < r.end })
+		.map(|r| r.record_id)
+		.collect()
 }
 
 pub fn logfuzz(ex: &mut Exec, muts: &[LogMutation], adopt: bool) {
@@ -211,7 +220,7 @@ pub fn logfuzz(ex: &mut Exec, muts: &[LogMutation], adopt: bool) {
 	simdisk::muted(|| simdisk::copy_dir(&live, &img, true));
 	let files = simdisk::muted(|| log_files(&img));
 	ex.refresh_log_records();
-	let last_enacted = ex.pipeline_counts().5;
+	let last_enacted = ex.last_enacted_id();
 	let n = ex.hist.len() - 1;
 	// commits whose record the tables already hold
 	let j_tables = ex.commits_at_open + ex.commit_records.iter().filter(|(_, rid)| *rid <= last_enacted).count();
@@ -225,7 +234,12 @@ pub fn logfuzz(ex: &mut Exec, muts: &[LogMutation], adopt: bool) {
 	let first_present = present.first().cloned();
 	let mut x: Option<u64> = None; // first damaged record id
 	let mut stale = false;
+	let mut duplicated = false;
 	let mut applied = 0;
+	// file name in the image -> name of the live file whose content it holds
+	let mut origin: std::collections::HashMap<String, String> = files.iter().map(|f| (f.clone(), f.clone())).collect();
+	let mut first_file_lost = false;
+	let mut damaged: std::collections::BTreeSet<u64> = Default::default();
 	simdisk::muted(|| {
 		for m in muts {
 			let pick = |sel: u32| -> Option<String> {
@@ -235,9 +249,10 @@ pub fn logfuzz(ex: &mut Exec, muts: &[LogMutation], adopt: bool) {
 					Some(files[sel as usize % files.len()].clone())
 				}
 			};
-			let mut note = |id: Option<u64>| {
-				if let Some(id) = id {
+			let mut note = |ids: Vec<u64>| {
+				for id in ids {
 					x = Some(x.map_or(id, |b: u64| b.min(id)));
+					damaged.insert(id);
 				}
 			};
 			match m {
@@ -249,7 +264,7 @@ pub fn logfuzz(ex: &mut Exec, muts: &[LogMutation], adopt: bool) {
 							let at = *at as u64 % len;
 							if let Ok(fh) = std::fs::OpenOptions::new().write(true).open(&p) {
 								let _ = fh.set_len(at);
-								note(first_damaged(ex, &f, at, true));
+								note(damaged_by(ex, origin.get(&f).unwrap_or(&f), at, true));
 								applied += 1;
 							}
 						}
@@ -263,7 +278,7 @@ pub fn logfuzz(ex: &mut Exec, muts: &[LogMutation], adopt: bool) {
 								let at = *at as usize % data.len();
 								data[at] ^= 1 << (bit % 8);
 								let _ = std::fs::write(&p, &data);
-								note(first_damaged(ex, &f, at as u64, false));
+								note(damaged_by(ex, origin.get(&f).unwrap_or(&f), at as u64, false));
 								applied += 1;
 							}
 						}
@@ -279,8 +294,8 @@ pub fn logfuzz(ex: &mut Exec, muts: &[LogMutation], adopt: bool) {
 								data[at] ^= 1 << (bit % 8);
 								data[at2] ^= 1 << (bit2 % 8);
 								let _ = std::fs::write(&p, &data);
-								note(first_damaged(ex, &f, at as u64, false));
-								note(first_damaged(ex, &f, at2 as u64, false));
+								note(damaged_by(ex, origin.get(&f).unwrap_or(&f), at as u64, false));
+								note(damaged_by(ex, origin.get(&f).unwrap_or(&f), at2 as u64, false));
 								applied += 1;
 							}
 						}
@@ -298,7 +313,7 @@ pub fn logfuzz(ex: &mut Exec, muts: &[LogMutation], adopt: bool) {
 								}
 								let _ = std::fs::write(&p, &data);
 								for i in 0..4 {
-									note(first_damaged(ex, &f, (at + i) as u64, false));
+									note(damaged_by(ex, origin.get(&f).unwrap_or(&f), (at + i) as u64, false));
 								}
 								applied += 1;
 							}
@@ -313,19 +328,26 @@ pub fn logfuzz(ex: &mut Exec, muts: &[LogMutation], adopt: bool) {
 							Rng::new(*seed).fill(&mut g);
 							data.extend_from_slice(&g);
 							let _ = std::fs::write(&p, &data);
+							// garbage after the last record of a file reads as an invalid record
+							// right there: whatever follows in later files comes after it
+							let of = origin.get(&f).cloned().unwrap_or(f.clone());
+							if let Some(last) = ex.log_records.iter().filter(|r| r.file == of && r.live).map(|r| r.record_id).max() {
+								note(vec![last + 1]);
+							}
 							applied += 1;
 						}
 					}
 				},
 				LogMutation::Delete { file_sel } => {
 					if let Some(f) = pick(*file_sel) {
-						note(first_damaged(ex, &f, 0, true));
+						note(damaged_by(ex, origin.get(&f).unwrap_or(&f), 0, true));
 						let _ = std::fs::remove_file(format!("{img}/{f}"));
 						applied += 1;
 					}
 				},
 				LogMutation::Duplicate { file_sel } => {
 					if let Some(f) = pick(*file_sel) {
+						duplicated = true;
 						let max = files.iter().map(|n| n[3..].parse::<u32>().unwrap_or(0)).max().unwrap_or(0);
 						let _ = std::fs::copy(format!("{img}/{f}"), format!("{img}/log{}", max + 1 + applied));
 						applied += 1;
@@ -340,13 +362,16 @@ pub fn logfuzz(ex: &mut Exec, muts: &[LogMutation], adopt: bool) {
 							let _ = std::fs::rename(format!("{img}/{fa}"), &tmp);
 							let _ = std::fs::rename(format!("{img}/{fb}"), format!("{img}/{fa}"));
 							let _ = std::fs::rename(&tmp, format!("{img}/{fb}"));
+							let (oa, ob) = (origin.get(fa).cloned().unwrap_or(fa.clone()), origin.get(fb).cloned().unwrap_or(fb.clone()));
+							origin.insert(fa.clone(), ob);
+							origin.insert(fb.clone(), oa);
 							applied += 1;
 						}
 					}
 				},
 				LogMutation::ZeroLen { file_sel } => {
 					if let Some(f) = pick(*file_sel) {
-						note(first_damaged(ex, &f, 0, true));
+						note(damaged_by(ex, origin.get(&f).unwrap_or(&f), 0, true));
 						let _ = std::fs::write(format!("{img}/{f}"), b"");
 						applied += 1;
 					}
@@ -356,7 +381,7 @@ pub fn logfuzz(ex: &mut Exec, muts: &[LogMutation], adopt: bool) {
 						let p = format!("{img}/{f}");
 						if let Ok(data) = std::fs::read(&p) {
 							let l = std::cmp::min(data.len(), (*len as usize % 9).max(1));
-							note(first_damaged(ex, &f, l as u64, true));
+							note(damaged_by(ex, origin.get(&f).unwrap_or(&f), l as u64, true));
 							let _ = std::fs::write(&p, &data[..l]);
 							applied += 1;
 						}
@@ -400,21 +425,39 @@ pub fn logfuzz(ex: &mut Exec, muts: &[LogMutation], adopt: bool) {
 	}
 	// old handle goes away; the run continues on the mutated image or on the live directory
 	ex.abandon();
+	let _ = &mut first_file_lost;
+	// The id expected for the first replayed record comes from the oldest log file present: if
+	// the first pending record (not yet in the tables) is the damaged one and later files hold
+	// more records, replay may start with a later record.
+	let first_pending_damaged = {
+		let first_pending = present.iter().find(|id| **id > last_enacted).cloned();
+		match first_pending {
+			Some(fp) =>
+				damaged.contains(&fp) &&
+					present.iter().filter(|id| **id < fp).all(|id| damaged.contains(id)) &&
+					present.iter().any(|id| *id > fp && !damaged.contains(id)),
+			None => false,
+		}
+	};
 	let rewind_possible = stale ||
+		(duplicated && first_present.map_or(false, |a| a <= last_enacted)) ||
 		match (x, first_present) {
 			(Some(x), Some(a)) => x > a && x <= last_enacted,
 			_ => false,
 		};
 	// upper bound from "applies nothing after the first invalid one"
-	let upper = if stale {
+	let upper = if stale || duplicated {
+		// an intact copy of a damaged record may legitimately be applied from the other file
 		logged
 	} else {
 		match x {
+			// damage inside what the tables already hold bounds nothing
+			Some(x) if x <= last_enacted => logged,
 			Some(x) => std::cmp::max(j_tables, ex.commits_at_open + ex.commit_records.iter().filter(|(_, rid)| *rid < x).count()),
 			None => logged,
 		}
 	};
-	let ok = open_and_judge(ex, &img, j_tables, upper, n, rewind_possible);
+	let ok = open_and_judge(ex, &img, j_tables, upper, n, rewind_possible, first_pending_damaged, adopt);
 	if ok.is_some() && adopt {
 		// continue on the mutated image
 		simdisk::muted(|| {
@@ -433,60 +476,90 @@ pub fn logfuzz(ex: &mut Exec, muts: &[LogMutation], adopt: bool) {
 
 /// Open a mutated image and apply the C13 oracle. Returns the prefix index on success (the
 /// handle is then left open on the image and the model reset to that prefix).
-fn open_and_judge(ex: &mut Exec, img: &str, j_tables: usize, upper: usize, n: usize, rewind_possible: bool) -> Option<usize> {
+fn open_and_judge(ex: &mut Exec, img: &str, j_tables: usize, upper: usize, n: usize, rewind_possible: bool, first_pending_damaged: bool, adopt: bool) -> Option<usize> {
 	ex.live = img.to_string();
 	simdisk::with(|d| d.set_root(img));
 	if !ex.reopen_quiet() {
-		ex.push_violation("C13", "open-failed", "opening a database with damaged log files returned an error".into());
+		let e = ex.last_open_error.clone();
+		let class = if rewind_possible {
+			"rewind-by-valid-older-records"
+		} else if first_pending_damaged {
+			"replay-starts-after-missing-first-log"
+		} else {
+			"open-failed"
+		};
+		ex.push_violation("C13", class, format!("opening a database with damaged log files returned an error: {e}"));
 		return None
 	}
-	let obs = match ex.observe_all() {
-		Ok(o) => o,
-		Err(e) => {
-			ex.push_violation("C13", "read-failed", format!("after opening damaged logs: {e}"));
+	let observed = std::panic::catch_unwind(std::panic::AssertUnwindSafe(|| ex.observe_all()));
+	let obs = match observed {
+		Ok(Ok(o)) => o,
+		Ok(Err(e)) => {
+			let class = if rewind_possible {
+				"rewind-by-valid-older-records"
+			} else if first_pending_damaged {
+				"replay-starts-after-missing-first-log"
+			} else {
+				"read-failed"
+			};
+			ex.push_violation("C13", class, format!("after opening damaged logs: {e}"));
+			return None
+		},
+		Err(_) => {
+			let class = if rewind_possible {
+				"rewind-by-valid-older-records"
+			} else if first_pending_damaged {
+				"replay-starts-after-missing-first-log"
+			} else {
+				"panic-after-log-damage"
+			};
+			ex.push_violation("C13", class, "a read panicked after opening damaged logs".into());
+			ex.leak_db();
 			return None
 		},
 	};
-	let mut found = None;
-	for j in (0..=n).rev() {
-		if ex.state_matches(&obs, &ex.hist[j].clone()).is_ok() {
-			found = Some(j);
-			break
+	let matching: Vec<usize> = (0..=n).filter(|j| ex.state_matches(&obs, &ex.hist[*j].clone()).is_ok()).collect();
+	let lo = j_tables;
+	let hi = std::cmp::max(upper, j_tables);
+	if let Some(j) = matching.iter().rev().find(|j| **j >= lo && **j <= hi) {
+		if adopt {
+			ex.adopt_state(*j);
 		}
+		return Some(*j)
 	}
-	match found {
-		None => {
-			let class = if rewind_possible { "rewind-by-valid-older-records" } else { "not-a-prefix-after-log-damage" };
-			ex.push_violation(
-				"C13",
-				class,
-				format!(
-					"state after opening damaged logs equals no prefix of the {n} committed transactions (tables held {j_tables}; {})",
-					if rewind_possible {
-						"an intact record older than what the tables held was re-applied and replay stopped before catching up"
-					} else {
-						"no already-enacted intact record precedes the damage"
-					}
-				),
-			);
-			None
-		},
-		Some(j) => {
-			if j < j_tables {
-				let class = if rewind_possible { "rewind-by-valid-older-records" } else { "older-than-tables" };
-				ex.push_violation("C13", class, format!("state after opening damaged logs is S_{j}, older than what the tables already held (S_{j_tables})"));
-				return None
-			}
-			if j > upper {
-				ex.push_violation(
-					"C13",
-					"applied-after-invalid",
-					format!("state after opening damaged logs is S_{j} but the first invalid record bounds it to S_{upper}: something after the first invalid record was applied"),
-				);
-				return None
-			}
-			ex.adopt_state(j);
-			Some(j)
-		},
+	if matching.is_empty() {
+		let class = if rewind_possible {
+			"rewind-by-valid-older-records"
+		} else if first_pending_damaged {
+			"replay-starts-after-missing-first-log"
+		} else {
+			"not-a-prefix-after-log-damage"
+		};
+		ex.push_violation(
+			"C13",
+			class,
+			format!(
+				"state after opening damaged logs equals no prefix of the {n} committed transactions (tables held {j_tables}; {})",
+				if rewind_possible {
+					"an intact record older than what the tables held was re-applied and replay stopped before catching up"
+				} else {
+					"no already-enacted intact record precedes the damage"
+				}
+			),
+		);
+		return None
 	}
+	let j = *matching.last().unwrap();
+	if j < lo {
+		let class = if rewind_possible { "rewind-by-valid-older-records" } else { "older-than-tables" };
+		ex.push_violation("C13", class, format!("state after opening damaged logs is S_{j}, older than what the tables already held (S_{j_tables})"));
+	} else {
+		let j = *matching.iter().find(|j| **j > hi).unwrap_or(&j);
+		ex.push_violation(
+			"C13",
+			if first_pending_damaged { "replay-starts-after-missing-first-log" } else { "applied-after-invalid" },
+			format!("state after opening damaged logs is S_{j} but the first invalid record bounds it to S_{hi}: something after the first invalid record was applied"),
+		);
+	}
+	None
 }
